@@ -2,7 +2,7 @@ SPECIFICATION GenSpec
 CONSTANTS
   Alphabet = {10, 32, 35, 97}
   MaxLen = 4
-  MaxFrag = 4
+  MaxFrag = 3
   MaxDst = 0
   MaxDstFrag = 1
   MaxQ = 0
